@@ -35,6 +35,7 @@ Qed.
 Lemma pend_recv : forall st m, accepting st = true -> pend (recv st m) <= pend st + 1.
 Proof.
   intros st m H. destruct st; simpl in *; try discriminate.
+  - destruct cur; try discriminate. simpl. lia.
   - destruct has; simpl; lia.
   - apply merge_in_length.
   - destruct seeds; try discriminate. destruct cur; try discriminate. simpl. lia.
@@ -47,6 +48,7 @@ Proof. destruct st; simpl; auto; discriminate. Qed.
 Lemma offer_sent : forall st m, offer st = Some m -> is_done st = false /\ is_done (sent st) = false /\ pend st = S (pend (sent st)).
 Proof.
   intros st m H. destruct st; simpl in *; try discriminate.
+  - subst. auto.
   - subst. auto.
   - destruct q; try discriminate. simpl. auto.
   - destruct seeds; simpl.
@@ -120,18 +122,65 @@ Proof.
   - exists 0, a. split; auto. split; auto. intros j Hj. lia.
 Qed.
 
-Theorem pipe_progress : forall fx p,
-  p_src_closed p = true -> p_cancel p = true -> all_stages_done p = false ->
-  exists i p', pstep_gen fx p (PExit i) = Some p'.
+Lemma after_ok_next : forall l i c, after_ok l = true -> nth_error l i = Some (StAfter c) ->
+  exists nx, nth_error l (S i) = Some nx /\ always_accepting nx = true.
 Proof.
-  intros fx p Hc Hk H. unfold all_stages_done in H.
+  induction l; intros i c H Hn.
+  - destruct i; discriminate.
+  - destruct i.
+    + simpl in Hn. inversion Hn; subst. simpl in H. destruct l; [discriminate|].
+      apply andb_true_iff in H. exists s. simpl. tauto.
+    + simpl in Hn. apply (IHl i c); auto. simpl in H. destruct a; auto.
+      apply andb_true_iff in H. tauto.
+Qed.
+
+Lemma always_accepting_accepting : forall st, always_accepting st = true -> accepting st = true.
+Proof. destruct st; simpl; auto; discriminate. Qed.
+
+(* while a stage is left, the first stage that has not ended can move: it returns (PExit), or -
+   changesAfter holding a change, which has no other way out - hands the change to the stage
+   after it, which always receives *)
+Theorem pipe_progress : forall fx p,
+  p_src_closed p = true -> p_cancel p = true -> after_ok (p_stages p) = true -> all_stages_done p = false ->
+  exists i p', pstep_gen fx p (PExit i) = Some p' \/ pstep_gen fx p (PXfer i) = Some p'.
+Proof.
+  intros fx p Hc Hk Hok H. unfold all_stages_done in H.
   destruct (first_not_done _ H) as (i & st & Hn & Hd & Hp).
-  exists i. simpl. unfold stage_at. rewrite Hn. rewrite Hd. simpl.
+  exists i. cbv beta iota delta [pstep_gen]. unfold stage_at. rewrite Hn. rewrite Hd.
   assert (Hin : input_closed p i = true).
   { destruct i; simpl; auto. unfold stage_at. destruct (Hp i) as (sj & Hj & Hdj); [lia|]. rewrite Hj. auto. }
-  rewrite Hin, Hk. destruct (accepting st) eqn:Ha; simpl.
-  - eexists; reflexivity.
-  - destruct st; simpl in *; try discriminate; eexists; reflexivity.
+  rewrite Hin, Hk. destruct (accepting st) eqn:Ha; cbn [negb andb orb].
+  - eexists; left; reflexivity.
+  - destruct st; simpl in Ha, Hd; try discriminate; cbn [has_ctx andb orb]; try (eexists; left; reflexivity).
+    (* StAfter (Some m) *)
+    destruct cur as [m|]; [|discriminate]. cbn [offer].
+    destruct (after_ok_next _ _ _ Hok Hn) as (nx & Hnx & Hacc).
+    assert (Hl : S i < List.length (p_stages p)) by (eapply nth_some_lt; eauto).
+    destruct (Nat.eqb (S i) (List.length (p_stages p))) eqn:E; [apply Nat.eqb_eq in E; lia|].
+    rewrite Hnx, (always_accepting_accepting _ Hacc). eexists; right; reflexivity.
+Qed.
+
+(* the shape needed by changesAfter is kept by every step *)
+Definition shape_ok (st st' : stage) : Prop :=
+  match st, st' with StAfter _, _ => True | _, StAfter _ => False | _, _ => True end.
+
+Lemma after_ok_upd_same : forall l i st st', nth_error l i = Some st ->
+  always_accepting st' = always_accepting st -> shape_ok st st' ->
+  after_ok l = true -> after_ok (upd l i st') = true.
+Proof.
+  unfold shape_ok. induction l; intros i st st' Hn Ha Hs H.
+  - destruct i; discriminate.
+  - destruct i.
+    + simpl in Hn. inversion Hn; subst. simpl upd.
+      destruct st, st'; simpl in *; auto; try tauto; try (apply andb_true_iff in H; tauto).
+    + simpl in Hn. simpl upd. 
+      assert (IH : after_ok (upd l i st') = true).
+      { apply (IHl i st st'); auto. simpl in H. destruct a; auto. apply andb_true_iff in H. tauto. }
+      destruct a; simpl in *; auto.
+      apply andb_true_iff in H. destruct H as (H1 & H2). apply andb_true_iff. split; auto.
+      destruct l; [discriminate|]. destruct i; simpl in *.
+      * inversion Hn; subst. rewrite Ha. auto.
+      * auto.
 Qed.
 
 (* the consumer's channel is closed exactly when the last stage has ended *)
@@ -205,4 +254,68 @@ Proof.
   exists (mkP true false [StFwd [] None; StDone] [mkM 3 1 5]).
   split; [vm_compute; reflexivity|]. split; [reflexivity|]. split; [reflexivity|].
   exists (mkP true true [StDone; StDone] [mkM 3 1 5]). split; vm_compute; reflexivity.
+Qed.
+
+Lemma after_ok_tail : forall a r, after_ok (a :: r) = true -> after_ok r = true.
+Proof. intros a r H. simpl in H. destruct a; auto. apply andb_true_iff in H. tauto. Qed.
+
+Lemma after_ok_exit : forall l i st, nth_error l i = Some st -> after_ok l = true ->
+  match i with 0 => True | S j => exists sj, nth_error l j = Some sj /\ is_done sj = true end ->
+  after_ok (upd l i StDone) = true.
+Proof.
+  induction l; intros i st Hn H Hp.
+  - destruct i; discriminate.
+  - destruct i.
+    + simpl. eapply after_ok_tail; eauto.
+    + simpl in Hn. simpl upd. pose proof (after_ok_tail _ _ H) as Ht.
+      assert (IH : after_ok (upd l i StDone) = true).
+      { apply (IHl i st); auto; destruct i; auto; destruct Hp as (sj & Hj & Hd); simpl in Hj; eauto. }
+      destruct a; simpl; auto.
+      destruct i.
+      * destruct Hp as (sj & Hj & Hd). simpl in Hj. inversion Hj; subst. discriminate.
+      * simpl in H. destruct l; [discriminate|]. apply andb_true_iff in H. destruct H as (H1 & _).
+        change (upd (s :: l) (S i) StDone) with (s :: upd l i StDone) in *.
+        apply andb_true_iff. split; auto.
+Qed.
+
+Lemma recv_shape : forall st m, always_accepting (recv st m) = always_accepting st /\ shape_ok st (recv st m).
+Proof.
+  unfold shape_ok. intros st m. destruct st; simpl; auto.
+  - destruct cur; simpl; auto.
+  - destruct seeds; [destruct cur|]; simpl; auto.
+  - destruct cur; simpl; auto. destruct (m_id m =? id)%Z; [destruct (m_kind m =? 3)%Z|]; simpl; auto.
+Qed.
+
+Lemma sent_shape : forall st, always_accepting (sent st) = always_accepting st /\ shape_ok st (sent st).
+Proof. unfold shape_ok. intros st. destruct st; simpl; auto. destruct seeds; simpl; auto. Qed.
+
+Theorem after_ok_step : forall fx p a p',
+  after_ok (p_stages p) = true -> pstep_gen fx p a = Some p' -> after_ok (p_stages p') = true.
+Proof.
+  intros fx p a p' Hok H. destruct a; cbv beta iota delta [pstep_gen] in H; unfold stage_at in H.
+  - destruct (p_cancel p); inversion H; subst; simpl; auto.
+  - destruct (p_cancel p && negb (p_src_closed p)); inversion H; subst; simpl; auto.
+  - destruct (p_src_closed p); try discriminate.
+    destruct (nth_error (p_stages p) 0) as [st|] eqn:Hst; try discriminate.
+    destruct (accepting st); inversion H; subst. simpl.
+    destruct (recv_shape st m). apply (after_ok_upd_same _ _ st (recv st m)); auto.
+  - destruct (nth_error (p_stages p) i) as [st|] eqn:Hst; try discriminate.
+    destruct (offer st) as [m|]; try discriminate.
+    destruct (sent_shape st) as (S1 & S2).
+    assert (Hok1 : after_ok (upd (p_stages p) i (sent st)) = true) by (apply (after_ok_upd_same _ _ st (sent st)); auto).
+    destruct (Nat.eqb (S i) (List.length (p_stages p))).
+    + inversion H; subst. simpl. auto.
+    + destruct (nth_error (p_stages p) (S i)) as [nx|] eqn:Hnx; try discriminate.
+      destruct (accepting nx); inversion H; subst. simpl.
+      destruct (recv_shape nx m). apply (after_ok_upd_same _ _ nx (recv nx m)); auto.
+      rewrite nth_upd_neq by lia. auto.
+  - destruct (nth_error (p_stages p) i) as [st|] eqn:Hst; try discriminate.
+    match type of H with (if ?b then _ else _) = _ => destruct b eqn:Hb; try discriminate end.
+    inversion H; subst. simpl.
+    apply andb_true_iff in Hb. destruct Hb as (_ & Hb). apply orb_true_iff in Hb. destruct Hb as [Hb|Hb].
+    + apply andb_true_iff in Hb. destruct Hb as (_ & Hin). eapply after_ok_exit; eauto.
+      destruct i; auto. simpl in Hin. unfold stage_at in Hin.
+      destruct (nth_error (p_stages p) i) eqn:Hj; try discriminate. eauto.
+    + apply andb_true_iff in Hb. destruct Hb as (Hb & _). apply andb_true_iff in Hb. destruct Hb as (Hctx & _).
+      apply (after_ok_upd_same _ _ st StDone); auto; unfold shape_ok; destruct st; simpl in *; auto; discriminate.
 Qed.
